@@ -203,6 +203,10 @@ def cases(ctx):
         lon = cprgen.wrap180(W * (rng.randint(0, int(360.0 / W) - 1) + 0.5))
         c = mkcase(rng, lat, lon, par, sfc)
         c["edge"] = {"dim": rng.choice(("lat", "lon")), "sgn": rng.choice((1, -1)), "eps": rng.choice((1e-9, 3e-9, 1e-8, 1e-7, 1e-6, 1e-5))}
+        if c["edge"]["dim"] == "lat" and rng.random() < 0.5:
+            # latitude only: the zone size is a constant (6 or 360/59 deg, a quarter on the surface), |ref| <= 90 has an ulp of
+            # 1.4e-14 deg and the decoder's own ref/d_lat carries ~1e-14 deg of round-off, so 1e-12 is still strictly inside
+            c["edge"]["eps"] = rng.choice((1e-12, 3e-12, 1e-11, 1e-10))
         yield "ref", c
     for k in range(ctx.share(4000 if quick else 40000)):
         zr = rng.choice(("a", "o", "ao", "ai", "oi", "aoi"))
